@@ -169,9 +169,13 @@ def gen_items(fam, rng, n):
 
 
 # --------------------------------------------------------------------------- C02: clean slate after a drift
-def clean_slate(fam, p, items, s, setref_at=()):
+def clean_slate(fam, p, items, s, setref_at=(), user_reset=False, no_initial_ref=False):
     """A: one detector over the whole history.  B: a NEW detector after every drift of A (same constructor parameters,
-    documented carry-over), fed only what arrives afterwards, under the same seed per step."""
+    documented carry-over), fed only what arrives afterwards, under the same seed per step.
+    user_reset: the caller also calls reset() right after every reported drift (as the docstrings recommend); for the
+    detectors whose reset() equals the automatic restart nothing changes, and KdqTreeBatch - whose reset() drops the
+    reference - must then behave like a new detector WITHOUT a reference (its next batch becomes the reference).
+    no_initial_ref (KdqTreeBatch): no set_reference at the start, the first update provides the reference."""
     kind = families()[fam]["kind"]
     a = make(fam, p)
     b = make(fam, p)
@@ -179,7 +183,8 @@ def clean_slate(fam, p, items, s, setref_at=()):
     fresh_pending, off = False, 0
     history = []
     t0 = 0
-    if kind == "batch":
+    drops_ref = fam == "KdqTreeBatch"
+    if kind == "batch" and not (no_initial_ref and drops_ref):
         seed(s, 0)
         a.set_reference(np.array(items[0], dtype=float))
         seed(s, 0)
@@ -208,8 +213,10 @@ def clean_slate(fam, p, items, s, setref_at=()):
             if fam == "CUSUM":       # documented carry-over: mean / deviation of the last burn_in observations
                 tail = np.array(history[-p["burn_in"]:], dtype=float)
                 pp.update(target=float(np.mean(tail)), sd_hat=float(np.std(tail)))
+            if user_reset:
+                a.reset()
             b = make(fam, pp)
-            if kind == "batch":      # documented carry-over: the drifted batch is the reference
+            if kind == "batch" and not (user_reset and drops_ref):      # documented carry-over: the drifted batch is the reference
                 seed(s, t)
                 b.set_reference(np.array(last_batch, dtype=float))
             fresh = True
@@ -220,7 +227,8 @@ def clean_slate(fam, p, items, s, setref_at=()):
         history.append(x)
         last_batch = x
         ev.append(step_event(a, b, fresh=fresh, off=off, note="update"))
-    return {"cfg": {"rel": "EqualShifted"}, "ev": ev, "fam": fam, "params": p, "items": items, "seed": s, "setref_at": list(setref_at)}
+    return {"cfg": {"rel": "EqualShifted"}, "ev": ev, "fam": fam, "params": p, "items": items, "seed": s, "setref_at": list(setref_at),
+            "user_reset": bool(user_reset), "no_initial_ref": bool(no_initial_ref)}
 
 
 def sabotage(trace, rng):
